@@ -25,6 +25,7 @@ REQUIRED_EVENTS = ["streams", "events_raised", "callback_invocations_checked", "
                    "in_callback_self_removals", "in_callback_removals_of_later", "raising_callbacks_invoked", "coroutine_callbacks_invoked",
                    "chains_checked"]
 
+QUICK_SHARDS = 4
 ETYPES = ["BaseEvent", "ValueUpdate", "StateUpdate", "DefinitionUpdate"]
 
 
@@ -312,7 +313,7 @@ def one_case(ctx, case):
 
 
 def run(ctx):
-    n = 1500 if not ctx.thorough else 150000
+    n = 6000 if not ctx.thorough else 150000
     for i in range(n):
         if not ctx.mine(i):
             continue
